@@ -190,6 +190,10 @@ func (ex *explorer) observe(newVals []*value, label string) {
 		if v.m.K != nm.Number {
 			continue
 		}
+		if i%256 == 0 && ex.r.Expired() {
+			ex.bounds["observers "+label] = fmt.Sprintf("cut by the deadline after %d of %d values", i, len(newVals))
+			break
+		}
 		var others []*value
 		for _, o := range buckets[bucketOf(v.m.N)] {
 			if o != v && o.key != v.key {
